@@ -138,16 +138,16 @@ impl Prop for Order {
     const NAME: &'static str = "C03.order";
     const BYTES: usize = 96;
     fn gen(u: &mut Unstructured<'_>) -> arbitrary::Result<PairCase> {
-        let a = gen::inst(u, 2)?;
-        let b = gen::inst_near(u, a, 2)?;
+        let a = gen::inst(u, 1)?;
+        let b = gen::inst_near(u, a, 1)?;
         Ok(PairCase { a, b, oa: gen::offset(u)?, ob: gen::offset(u)? })
     }
     fn check(c: &PairCase, cx: &mut Cx) -> Verdict {
         if !c.a.valid() || !c.b.valid() || c.oa.abs() > 86_399 || c.ob.abs() > 86_399 {
             return Verdict::Skip("malformed case");
         }
-        if c.a.day < cal::MIN_DAY + 2 || c.a.day > cal::MAX_DAY - 2 || c.b.day < cal::MIN_DAY + 2 || c.b.day > cal::MAX_DAY - 2 {
-            return Verdict::Skip("within 2 days of a range end (set_offset undefined there)");
+        if c.a.day < cal::MIN_DAY + 1 || c.a.day > cal::MAX_DAY - 1 || c.b.day < cal::MIN_DAY + 1 || c.b.day > cal::MAX_DAY - 1 {
+            return Verdict::Skip("on an outermost day of the range (set_offset undefined there)");
         }
         let (ia, ib) = (c.a.i(), c.b.i());
         let delta = ia - ib;
